@@ -616,31 +616,9 @@ func (P *Prog) checkIndexAgreement(r *Result) {
 			sprintfOK := false
 			for b := range loop.body {
 				for _, in := range b.Instrs {
-					// `"[" + strconv.Itoa(i) + "]"` is the same segment as fmt.Sprintf("[%d]", i)
-					if bo, isBO := in.(*ssa.BinOp); isBO && bo.Op == token.ADD {
-						if rs, okR := constString(bo.Y); okR && rs == "]" {
-							if inner, okI := bo.X.(*ssa.BinOp); okI && inner.Op == token.ADD {
-								if ls, okL := constString(inner.X); okL && ls == "[" {
-									if cnv, okC := inner.Y.(*ssa.Call); okC {
-										if cc := callOf(cnv); cc.static != nil && (cc.static.String() == "strconv.Itoa" || cc.static.String() == "strconv.FormatInt") {
-											a := cnv.Call.Args[0]
-											if cvt, isCvt := a.(*ssa.Convert); isCvt {
-												a = cvt.X
-											}
-											base10 := cc.static.String() == "strconv.Itoa"
-											if !base10 {
-												if k, okK := constInt(cnv.Call.Args[1]); okK && k == 10 {
-													base10 = true
-												}
-											}
-											if a == ssa.Value(iv) && base10 {
-												sprintfOK = true
-											}
-										}
-									}
-								}
-							}
-						}
+					// the segment: fmt.Sprintf("[%d]", i), "[" + strconv.Itoa(i) + "]", or a helper returning one of them for its argument i
+					if v, isV := in.(ssa.Value); isV && isIndexSegment(v, iv, 0) {
+						sprintfOK = true
 					}
 					c2, ok := in.(*ssa.Call)
 					if !ok {
@@ -788,7 +766,9 @@ func (P *Prog) checkStructWritesByField(r *Result) {
 				}
 			}
 		}
-		// field selection must be by the (capitalised) schema key: FieldByName(key) where key derives from the loop key
+		// field selection must be by this iteration's schema key: Value.FieldByName(k), or Value.FieldByIndex /
+		// Field with an index taken from Type().FieldByName(k) in the same iteration, where k is computed purely
+		// from the loop key (capitalisation, a helper) — never read from a cache or another object
 		for _, l := range mapRangeLoops(fn) {
 			for b := range l.body {
 				for _, in := range b.Instrs {
@@ -797,8 +777,16 @@ func (P *Prog) checkStructWritesByField(r *Result) {
 						continue
 					}
 					ci := callOf(c)
-					if ci.static != nil && isPkgFunc(ci.static, "reflect") && ci.static.Name() == "FieldByName" && len(c.Call.Args) == 2 {
-						fieldSel++
+					if ci.static == nil || !isPkgFunc(ci.static, "reflect") || len(c.Call.Args) != 2 {
+						continue
+					}
+					switch ci.static.Name() {
+					case "FieldByName", "FieldByIndex", "Field":
+						if pureFromKey(c.Call.Args[1], l.key, 12) {
+							fieldSel++
+						} else {
+							bad = append(bad, fmt.Sprintf("the field selected at %s is not determined by this iteration's schema key alone (a cached or foreign index can name another field)", P.ipos(in)))
+						}
 					}
 				}
 			}
@@ -983,7 +971,7 @@ func (P *Prog) storedCoercer(ctor *ssa.Function) (cl *ssa.Function, env map[ssa.
 		env = map[ssa.Value]ssa.Value{}
 		for k, prm := range fac.Params {
 			if k < len(x.Call.Args) {
-				env[prm] = cv(x.Call.Args[k])
+				env[prm] = x.Call.Args[k]
 			}
 		}
 		targs = map[string]types.Type{}
@@ -1189,4 +1177,175 @@ func (P *Prog) checkCoercerResultTypes(r *Result, rule string) {
 		}
 	}
 	r.floor(rule, 5)
+}
+
+// pureFromKey: v is computed from the loop key x by pure steps only (string operations, unexported
+// helpers and strings/unicode functions applied to it, a reflect.Type.FieldByName lookup of it and the
+// fields of that result) — no map or cache read, no field of another object.
+func pureFromKey(v, x ssa.Value, depth int) bool {
+	if depth == 0 || v == nil {
+		return false
+	}
+	if v == x {
+		return true
+	}
+	switch t := v.(type) {
+	case *ssa.Const:
+		return true
+	case *ssa.UnOp:
+		if t.Op != token.MUL {
+			return pureFromKey(t.X, x, depth-1)
+		}
+		switch a := t.X.(type) {
+		case *ssa.Alloc:
+			sts := storesTo(a)
+			if len(sts) == 0 {
+				return false
+			}
+			for _, st := range sts {
+				if !pureFromKey(st.Val, x, depth-1) {
+					return false
+				}
+			}
+			return true
+		case *ssa.FieldAddr:
+			if al, ok := a.X.(*ssa.Alloc); ok {
+				return pureFromKey(&ssa.UnOp{Op: token.MUL, X: al}, x, depth-1)
+			}
+		}
+		return false
+	case *ssa.Field:
+		return pureFromKey(t.X, x, depth-1)
+	case *ssa.Phi:
+		for _, e := range t.Edges {
+			if !pureFromKey(e, x, depth-1) {
+				return false
+			}
+		}
+		return true
+	case *ssa.BinOp:
+		return pureFromKey(t.X, x, depth-1) && pureFromKey(t.Y, x, depth-1)
+	case *ssa.ChangeType:
+		return pureFromKey(t.X, x, depth-1)
+	case *ssa.Convert:
+		return pureFromKey(t.X, x, depth-1)
+	case *ssa.Slice:
+		return pureFromKey(t.X, x, depth-1)
+	case *ssa.Index:
+		if b, ok := t.X.Type().Underlying().(*types.Basic); ok && b.Info()&types.IsString != 0 {
+			return pureFromKey(t.X, x, depth-1)
+		}
+		return false
+	case *ssa.Lookup:
+		if b, ok := t.X.Type().Underlying().(*types.Basic); ok && b.Info()&types.IsString != 0 {
+			return pureFromKey(t.X, x, depth-1)
+		}
+		return false // a map read: a cache
+	case *ssa.Extract:
+		return pureFromKey(t.Tuple, x, depth-1)
+	case *ssa.Call:
+		ci := callOf(t)
+		switch {
+		case ci.builtin != "":
+			for _, a := range t.Call.Args {
+				if !pureFromKey(a, x, depth-1) {
+					return false
+				}
+			}
+			return true
+		case ci.invoke != nil && ci.invoke.Name() == "FieldByName" && strings.HasSuffix(t.Call.Value.Type().String(), "reflect.Type"):
+			return len(t.Call.Args) == 1 && pureFromKey(t.Call.Args[0], x, depth-1)
+		case ci.static != nil && (formulaHelper(ci.static) || isPkgFunc(ci.static, "strings") || isPkgFunc(ci.static, "unicode") || isPkgFunc(ci.static, "unicode/utf8")):
+			if len(t.Call.Args) == 0 {
+				return false
+			}
+			for _, a := range t.Call.Args {
+				if !pureFromKey(a, x, depth-1) {
+					return false
+				}
+			}
+			return true
+		}
+	}
+	return false
+}
+
+// isIndexSegment: v is the path segment "[i]" of the loop variable iv: fmt.Sprintf("[%d]", iv),
+// "[" + strconv.Itoa(iv) + "]" (or FormatInt(int64(iv), 10)), or the result of a module helper that returns such an
+// expression of its parameter, called with iv.
+func isIndexSegment(v, iv ssa.Value, depth int) bool {
+	if depth > 2 {
+		return false
+	}
+	isIV := func(a ssa.Value) bool {
+		a = cv(a)
+		if cvt, ok := a.(*ssa.Convert); ok {
+			a = cv(cvt.X)
+		}
+		return a == iv || cv(a) == cv(iv)
+	}
+	switch x := v.(type) {
+	case *ssa.BinOp:
+		if x.Op != token.ADD {
+			return false
+		}
+		rs, okR := constString(x.Y)
+		inner, okI := x.X.(*ssa.BinOp)
+		if !okR || rs != "]" || !okI || inner.Op != token.ADD {
+			return false
+		}
+		ls, okL := constString(inner.X)
+		cnv, okC := inner.Y.(*ssa.Call)
+		if !okL || ls != "[" || !okC {
+			return false
+		}
+		cc := callOf(cnv)
+		if cc.static == nil {
+			return false
+		}
+		switch cc.static.String() {
+		case "strconv.Itoa":
+			return isIV(cnv.Call.Args[0])
+		case "strconv.FormatInt":
+			k, okK := constInt(cnv.Call.Args[1])
+			return okK && k == 10 && isIV(cnv.Call.Args[0])
+		}
+		return false
+	case *ssa.Call:
+		cc := callOf(x)
+		if cc.static == nil {
+			return false
+		}
+		if cc.static.String() == "fmt.Sprintf" {
+			s, ok := constString(x.Call.Args[0])
+			return ok && s == "[%d]" && sliceLitHas(x.Call.Args[1], iv)
+		}
+		if !formulaHelper(cc.static) && !(cc.static.Blocks != nil && inModule(funcPkgPath(cc.static))) {
+			return false
+		}
+		// a helper: every return is the segment of the parameter that receives iv
+		callee := cc.static
+		saved := substEnv
+		substEnv = map[ssa.Value]ssa.Value{}
+		for k, v2 := range saved {
+			substEnv[k] = v2
+		}
+		for k, prm := range callee.Params {
+			if k < len(x.Call.Args) {
+				substEnv[prm] = x.Call.Args[k]
+			}
+		}
+		defer func() { substEnv = saved }()
+		n, all := 0, true
+		eachInstr(callee, func(_ *ssa.BasicBlock, _ int, in ssa.Instruction) {
+			if rt, ok := in.(*ssa.Return); ok && len(rt.Results) == 1 {
+				n++
+				if !isIndexSegment(rt.Results[0], iv, depth+1) {
+					all = false
+				}
+			}
+		})
+		return n > 0 && all
+	}
+	return false
 }
